@@ -222,6 +222,7 @@ def gen_script(rnd, k):
     logic = pick_logic(forms + gv_terms, rnd)
     w = Writer(rnd, numerals_are_real=logic in ("QF_LRA", "QF_NRA", "QF_RDL", "LRA"), tags=tags)
     w.int_numeral_rationals = True
+    w.annotate = True
     lines = []
     if logic:
         lines.append("(set-logic %s)" % logic)
